@@ -13,6 +13,29 @@ func chainHashOf(g *key.Group) []byte { return pubchain.NewChainInfo(g).Hash() }
 
 // GenDaemon draws one E-daemon scenario biased towards prop.
 func GenDaemon(prop string, seed uint64, tier string) *DaemonScenario {
+	if prop == "C20" {
+		// the round-trip observers watch what key-generation histories write and send: first
+		// generations with a member that drops out (share indices with a hole), resharings that
+		// change size and threshold in both directions, every status of the state machine; a
+		// member is restarted at the end so that it reloads what it wrote
+		inner := []string{"C06", "C07", "C07", "C08"}[seed%4]
+		sc := GenDaemon(inner, seed, tier)
+		sc.Prop = "C20"
+		r := NewRng(seed ^ 0xc20c20)
+		if inner == "C07" {
+			for i := range sc.Reshares {
+				if p := &sc.Reshares[i]; p.Fail == "" && r.Bool(50) {
+					nm := sc.N + len(p.Join) - len(p.Leave)
+					p.NewT = nm/2 + 1 // the smallest legal threshold: shares and group files get shorter
+				}
+			}
+		}
+		if inner != "C08" && !sc.DKGOnly && sc.HealAtMs > 4000 {
+			n := r.Intn(sc.N)
+			sc.Script = append(sc.Script, Act{AtMs: sc.HealAtMs - 2500, Kind: "stop", Node: n}, Act{AtMs: sc.HealAtMs - 300, Kind: "start", Node: n})
+		}
+		return sc
+	}
 	r := NewRng(seed ^ 0xdae401)
 	sc := &DaemonScenario{Engine: "daemon", Prop: prop, Seed: seed}
 	sc.N = r.Range(3, 5)
